@@ -27,6 +27,17 @@ enum Tk {
     Log1,
     Return,
     CallValue,
+    /// the value on top of the stack becomes the 32-byte argument / init code / payload of the instruction
+    StaticCallArg,
+    DelegateCallArg,
+    CallArg,
+    CreateArg,
+    RevertArg,
+    HashAgain,
+    Balance,
+    IsZero,
+    EqCaller,
+    CondJump,
     // real accesses
     Sload1,
     Sstore2,
@@ -48,6 +59,16 @@ fn alphabet() -> Vec<Tk> {
         Tk::Log1,
         Tk::Return,
         Tk::CallValue,
+        Tk::StaticCallArg,
+        Tk::DelegateCallArg,
+        Tk::CallArg,
+        Tk::CreateArg,
+        Tk::RevertArg,
+        Tk::HashAgain,
+        Tk::Balance,
+        Tk::IsZero,
+        Tk::EqCaller,
+        Tk::CondJump,
         Tk::Sload1,
         Tk::Sstore2,
         Tk::Sstore,
@@ -65,6 +86,9 @@ fn arity(t: Tk) -> (usize, usize) {
         Tk::Dup1 => (1, 2),
         Tk::Log1 => (1, 0),
         Tk::Return => (0, 0),
+        Tk::StaticCallArg | Tk::DelegateCallArg | Tk::CallArg | Tk::CreateArg | Tk::HashAgain => (1, 1),
+        Tk::RevertArg | Tk::CondJump => (1, 0),
+        Tk::Balance | Tk::IsZero | Tk::EqCaller => (1, 1),
         Tk::Sstore => (2, 0),
         Tk::Sload => (1, 1),
     }
@@ -99,6 +123,19 @@ fn expand(seq: &[Tk]) -> Vec<u8> {
             Tk::Log1 => t.extend([p(0x20), p(0x80), o(op::LOG1)]),
             Tk::Return => t.extend([p(0x20), p(0x80), o(op::RETURN)]),
             Tk::CallValue => t.push(o(op::CALLVALUE)),
+            Tk::StaticCallArg => t.extend([p(0x80), o(op::MSTORE), p(0), p(0), p(0x20), p(0x80), o(op::CALLER), o(op::GAS), o(op::STATICCALL)]),
+            Tk::DelegateCallArg => {
+                t.extend([p(0x80), o(op::MSTORE), p(0), p(0), p(0x20), p(0x80), o(op::CALLER), o(op::GAS), o(op::DELEGATECALL)])
+            }
+            Tk::CallArg => t.extend([p(0x80), o(op::MSTORE), p(0), p(0), p(0x20), p(0x80), p(0), o(op::CALLER), o(op::GAS), o(op::CALL)]),
+            Tk::CreateArg => t.extend([p(0x80), o(op::MSTORE), p(0x20), p(0x80), p(0), o(op::CREATE)]),
+            Tk::RevertArg => t.extend([p(0x80), o(op::MSTORE), p(0x20), p(0x80), o(op::REVERT)]),
+            Tk::HashAgain => t.extend([p(0x80), o(op::MSTORE), p(0x20), p(0x80), o(op::SHA3)]),
+            Tk::Balance => t.push(o(op::BALANCE)),
+            Tk::IsZero => t.push(o(op::ISZERO)),
+            Tk::EqCaller => t.extend([o(op::CALLER), o(op::EQ)]),
+            // the value decides a conditional jump to the end of the code (an invalid target is fine in permissive mode)
+            Tk::CondJump => t.extend([Tok::PushLen(0), o(op::JUMPI)]),
             Tk::Sload1 => t.extend([p(1), o(op::SLOAD)]),
             Tk::Sstore2 => t.extend([p(2), o(op::SSTORE)]),
             Tk::Sstore => t.push(o(op::SSTORE)),
@@ -314,8 +351,8 @@ impl Check for C05 {
                     return false;
                 }
                 depth = depth - pops + pushes;
-                // code after RETURN is dead
-                if *t == Tk::Return && i + 1 < seq.len() {
+                // code after RETURN / REVERT is dead
+                if (*t == Tk::Return || *t == Tk::RevertArg) && i + 1 < seq.len() {
                     return false;
                 }
             }
@@ -344,9 +381,10 @@ impl Check for C05 {
     }
     fn coverage(&self, tier: Tier, total: &Ctx) -> Map<String, Value> {
         let rule = format!(
-            "all stack-safe token sequences <= {} over 16 tokens that contain at least one look-alike hash computation: \
+            "all stack-safe token sequences <= {} over 26 tokens that contain at least one look-alike hash computation: \
              keccak(caller . 7), keccak(calldata . 8), keccak(7) + x, the literal keccak(7), a 160-bit mask, ADD, POP, DUP1, MSTORE, \
-             LOG1, RETURN, CALLVALUE, and the real accesses SLOAD(1), SSTORE(2), SSTORE / SLOAD with the key taken from the stack. \
+             LOG1, RETURN, CALLVALUE, the value passed as the argument data of STATICCALL / DELEGATECALL / CALL, as CREATE init code, as \
+             REVERT payload, hashed again, used as an address, zero-tested, compared, used as a branch condition, and the real accesses SLOAD(1), SSTORE(2), SSTORE / SLOAD with the key taken from the stack. \
              Storage-free programs must yield an empty layout. For mixed programs every layout index must lie in the over-approximated \
              closure of the constants found in KEY sub-trees of the storage nodes of the execution result (constants, their keccak \
              pre-images below 10000, hashes of constant data, one constant addition). non-trivial = every such program (each contains a \
